@@ -15,21 +15,9 @@ REAL = ["esutil.coords.randsphere/randcap/rotate", "esutil.random.Generator/Chol
         "esutil.stat.interplin", "scipy.integrate.cumulative_trapezoid", "numpy.linalg.cholesky"]
 STUB = ["the random source (SimRNG): that is the point of the engine; real RandomState/default_rng are used as a control group"]
 
-LD = np.longdouble
-D2R = LD(np.pi) / LD(180)
-RHO_SMALL = 2e-3        # degrees: class boundary of the open finding on small separations from the cap centre
+from ..refs.sphere import sep_deg  # noqa: E402
 
-
-def sep_deg(ra1, dec1, ra2, dec2):
-    """great-circle separation in degrees, extended precision, atan2(|a x b|, a.b)."""
-    a1, d1 = np.asarray(ra1, dtype=LD) * D2R, np.asarray(dec1, dtype=LD) * D2R
-    a2, d2 = np.asarray(ra2, dtype=LD) * D2R, np.asarray(dec2, dtype=LD) * D2R
-    x1, y1, z1 = np.cos(d1) * np.cos(a1), np.cos(d1) * np.sin(a1), np.sin(d1)
-    x2, y2, z2 = np.cos(d2) * np.cos(a2), np.cos(d2) * np.sin(a2), np.sin(d2)
-    cx, cy, cz = y1 * z2 - z1 * y2, z1 * x2 - x1 * z2, x1 * y2 - y1 * x2
-    cr = np.sqrt(cx * cx + cy * cy + cz * cz)
-    dt = x1 * x2 + y1 * y2 + z1 * z2
-    return np.asarray(np.arctan2(cr, dt) / D2R, dtype="f8")
+RHO_SMALL = 2e-3        # degrees: class boundary used for features (historical finding on small separations)
 
 
 # =========================================================================== plan
